@@ -366,13 +366,26 @@ static bool exec_op(const vj::val &op)
         if (!n.sat.root_level())
             return false;
         lin l = rd_lin(op["l"]), r = rd_lin(op["r"]);
+        const lin l_meant = l, r_meant = r; // what is recorded: the expressions as the caller means them
+        if (op.has("via"))
+        { // the operands are built with the compound operators of lin, through a term that cancels: (l + c*z) - c*z and
+          // r += c*z; r -= c*z (what the translation of 'x + y - x' does)
+            const var z = (var)op["via"][0].i();
+            const rational c(op["via"][1].i(), op["via"][2].i());
+            l += lin(z, c);
+            l -= lin(z, c);
+            lin t(r);
+            t -= lin(z, c);
+            t += lin(z, c);
+            r = t;
+        }
         const std::string &rel = op["rel"].s();
         lit res = rel == "lt" ? n.lra.new_lt(l, r) : rel == "leq" ? n.lra.new_leq(l, r)
                                                  : rel == "eq"    ? n.lra.new_eq(l, r)
                                                  : rel == "geq"   ? n.lra.new_geq(l, r)
                                                                   : n.lra.new_gt(l, r);
         n.stable = false;
-        emit("\"e\":\"lra_rel\",\"rel\":\"" + rel + "\",\"l\":" + js(l) + ",\"r\":" + js(r) + ",\"ret\":" + std::to_string(index(res)));
+        emit("\"e\":\"lra_rel\",\"rel\":\"" + rel + "\",\"l\":" + js(l_meant) + ",\"r\":" + js(r_meant) + ",\"ret\":" + std::to_string(index(res)));
     }
     else if (e == "dl_new_var")
     {
@@ -713,7 +726,10 @@ struct gen
                 }
                 return;
             }
-            run(std::string("{\"e\":\"lra_rel\",\"rel\":\"") + rel(rnd(5)) + "\",\"l\":" + lra_lin(3) + ",\"r\":" + lra_lin(coin(50) ? 0 : 2) + "}");
+            std::string via;
+            if (coin(25)) // a cancelling term, built through the compound operators (preferably the most recent variable)
+                via = ",\"via\":[" + std::to_string(coin(60) ? lra_vars.back() : lra_vars[rnd((int)lra_vars.size())]) + "," + rnd_coef() + "]";
+            run(std::string("{\"e\":\"lra_rel\",\"rel\":\"") + rel(rnd(5)) + "\",\"l\":" + lra_lin(3) + ",\"r\":" + lra_lin(coin(50) ? 0 : 2) + via + "}");
             ++n_atoms;
             add_lit(last_ret());
             return;
